@@ -31,13 +31,14 @@ Lemma apply_op_cs : forall s o,
   cs (apply_op s o) =
   match o with
   | Zero => cs (zero s)
+  | Reload ok => cs (set_geo ok s)
   | _ => match accepted_poll o with
          | Some (ad, c, t, n) => cs (update_country ad t n c s)
          | None => cs s
          end
   end.
 Proof.
-  intros s o. destruct o as [|a t n relay out|n|n|n| |]; cbn [apply_op accepted_poll]; try reflexivity.
+  intros s o. destruct o as [|a t n relay out|n|n|n| | |ok]; cbn [apply_op accepted_poll]; try reflexivity.
   - destruct relay, out, a as [[ad c]|]; rewrite ?cs_bump_prom, ?cs_bump_ev; try reflexivity;
       apply cs_update_country_bumped; rewrite ?cs_bump_prom, ?cs_bump_ev; reflexivity.
   - destruct (n =? 2); reflexivity.
@@ -49,7 +50,7 @@ Lemma poll_of_accepted : forall u a o,
                   | None => None
                   end.
 Proof.
-  intros u a o. destruct o as [|[[ad c]|] t n relay out|n|n|n| |]; cbn [poll_of accepted_poll]; try reflexivity.
+  intros u a o. destruct o as [|[[ad c]|] t n relay out|n|n|n| | |ok]; cbn [poll_of accepted_poll]; try reflexivity.
   destruct out; reflexivity.
 Qed.
 
@@ -59,6 +60,62 @@ Proof.
   induction l as [|x l IH]; intro o; cbn [first_poll app].
   - destruct (poll_of u a o); reflexivity.
   - destruct (poll_of u a x); [reflexivity | apply IH].
+Qed.
+
+(* ---------- the geoip table state along a history ---------- *)
+Lemma geo_after_snoc : forall g l o, geo_after g (l ++ [o]) = geo_step (geo_after g l) o.
+Proof. intros. unfold geo_after. rewrite fold_left_app. reflexivity. Qed.
+
+Lemma geo_step_not_reload : forall g o, is_reload o = false -> geo_step g o = g.
+Proof. intros g o H. destruct o; try reflexivity. discriminate. Qed.
+
+Lemma accepted_not_reload : forall o x, accepted_poll o = Some x -> is_reload o = false.
+Proof. intros o x H. destruct o; try reflexivity. discriminate. Qed.
+
+Lemma poll_of_reload : forall u a o, is_reload o = true -> poll_of u a o = None.
+Proof. intros u a o H. destruct o; try discriminate. reflexivity. Qed.
+
+Lemma first_sight_snoc : forall l g u a o,
+  first_sight g u a (l ++ [o]) =
+  match first_sight g u a l with
+  | Some x => Some x
+  | None => match poll_of u a o with Some (n, c) => Some (geo_after g l, n, c) | None => None end
+  end.
+Proof.
+  induction l as [|x l IH]; intros g u a o; cbn [first_sight app].
+  - unfold geo_after. cbn [fold_left]. destruct (poll_of u a o) as [[n c]|]; reflexivity.
+  - destruct (poll_of u a x) as [[n c]|]; [reflexivity|]. rewrite IH. unfold geo_after. cbn [fold_left]. reflexivity.
+Qed.
+
+Lemma geo_track_fst : forall g ops, fst (geo_track g ops) = geo_after g ops.
+Proof.
+  intros g ops. unfold geo_track, geo_after. generalize g at 2 as g0. revert g.
+  induction ops as [|o ops IH]; intros g g0; cbn [fold_left fst snd]; [reflexivity|]. apply IH.
+Qed.
+
+Lemma geo_track_snoc : forall g ops o,
+  geo_track g (ops ++ [o]) =
+  (geo_step (geo_after g ops) o, if is_zero o then geo_step (geo_after g ops) o else period_geo g ops).
+Proof.
+  intros g ops o. unfold period_geo. rewrite <- geo_track_fst. unfold geo_track. rewrite fold_left_app. reflexivity.
+Qed.
+
+Lemma period_geo_snoc : forall g ops o,
+  period_geo g (ops ++ [o]) = if is_zero o then geo_after g ops else period_geo g ops.
+Proof.
+  intros g ops o. unfold period_geo at 1. rewrite geo_track_snoc. cbn [snd].
+  destruct o; cbn [is_zero geo_step]; reflexivity.
+Qed.
+
+Lemma geo_exec : forall g ops, geo (exec ops (minit g)) = geo_after g ops.
+Proof.
+  intros g ops. induction ops as [|o ops IH] using rev_ind; [reflexivity|].
+  rewrite exec_snoc, geo_after_snoc, <- IH. pose proof (apply_op_cs (exec ops (minit g)) o) as H.
+  assert (E : geo (apply_op (exec ops (minit g)) o) = cs_g (cs (apply_op (exec ops (minit g)) o))) by reflexivity.
+  rewrite E, H. destruct o as [|a t n relay out|n|n|n| | |ok]; cbn [accepted_poll geo_step]; try reflexivity.
+  destruct a as [[ad c]|]; [|reflexivity]. destruct out; try reflexivity;
+    (unfold cs; cbn [cs_g]; unfold update_country; destruct (mem ad (tsets (exec ops (minit g)) (norm_type t))); [reflexivity|];
+     destruct (geo (exec ops (minit g))) eqn:Eg; cbn [geo]; rewrite ?Eg; reflexivity).
 Qed.
 
 Lemma norm_type_le : forall t, In (norm_type t) all_types.
@@ -112,57 +169,58 @@ Proof. intros f f' us H. f_equal. apply map_ext_in. exact H. Qed.
 Lemma all_types_NoDup : NoDup all_types.
 Proof. unfold all_types. repeat constructor; cbn [In]; intros H; repeat (destruct H as [H|H]; [discriminate|]); exact H. Qed.
 
-(* ---------- the invariant ---------- *)
-Definition lenf (c : bytes) (u : N) (P : list op) (l : list bytes) : N := N.of_nat (List.length (filter (ccb c u P) l)).
-
-Record CInv (g : bool) (s : mstate) (P : list op) : Prop := {
-  ci_geo : geo s = g;
+(* ---------- the invariant ----------
+   g0 = the table state when the running period began, P = the ops of the running period *)
+Record CInv (g0 : bool) (s : mstate) (P : list op) : Prop := {
+  ci_geo : geo s = geo_after g0 P;
   ci_nd : forall u, NoDup (tsets s u);
-  ci_in : forall u a, In a (tsets s u) <-> first_poll u a P <> None;
+  ci_in : forall u a, In a (tsets s u) <-> first_sight g0 u a P <> None;
   ci_ndr : NoDup (nat_r s); ci_ndu : NoDup (nat_u s); ci_ndk : NoDup (nat_k s);
-  ci_r : forall a, In a (nat_r s) <-> g = true /\ exists u c, first_poll u a P = Some (1, c);
-  ci_u : forall a, In a (nat_u s) <-> g = true /\ exists u c, first_poll u a P = Some (2, c);
-  ci_k : forall a, In a (nat_k s) <-> g = true /\ exists u n c, first_poll u a P = Some (n, c) /\ n <> 1 /\ n <> 2;
+  ci_r : forall a, In a (nat_r s) <-> exists u c, first_sight g0 u a P = Some (true, 1, c);
+  ci_u : forall a, In a (nat_u s) <-> exists u c, first_sight g0 u a P = Some (true, 2, c);
+  ci_k : forall a, In a (nat_k s) <-> exists u n c, first_sight g0 u a P = Some (true, n, c) /\ n <> 1 /\ n <> 2;
   ci_ndc : NoDup (map fst (ccounts s));
   ci_pos : forall kv, In kv (ccounts s) -> 0 < snd kv;
-  ci_cc : forall c, aget 0 c (ccounts s) = if g then ccsum c P (tsets s) else 0
+  ci_cc : forall c, aget 0 c (ccounts s) = ccsumg c g0 P (tsets s)
 }.
 
-Ltac cinv_empty g :=
-  constructor; cbn [minit zero geo tsets nat_r nat_u nat_k ccounts first_poll map];
-  [ try reflexivity; try assumption
+Ltac cinv_empty :=
+  constructor; cbn [minit zero geo tsets nat_r nat_u nat_k ccounts first_sight map];
+  [ reflexivity
   | intros; constructor
   | intros u a; split; [intros [] | let Hx := fresh "Hx" in (intro Hx; exfalso; apply Hx; reflexivity)]
   | constructor | constructor | constructor
-  | intro a; split; [intros [] | intros [_ [u [c ?]]]; discriminate]
-  | intro a; split; [intros [] | intros [_ [u [c ?]]]; discriminate]
-  | intro a; split; [intros [] | intros [_ [u [n [c [? _]]]]]; discriminate]
+  | intro a; split; [intros [] | intros [u [c ?]]; discriminate]
+  | intro a; split; [intros [] | intros [u [c ?]]; discriminate]
+  | intro a; split; [intros [] | intros [u [n [c [? _]]]]; discriminate]
   | constructor
   | intros kv []
-  | intro c; destruct g; reflexivity ].
+  | intro c; reflexivity ].
 
 Lemma CInv_init : forall g, CInv g (minit g) [].
-Proof. intro g. cinv_empty g. Qed.
+Proof. intro g. cinv_empty. Qed.
 
-(* the invariant looks at P only through first_poll *)
-Lemma CInv_ext : forall g s P P', (forall u a, first_poll u a P' = first_poll u a P) -> CInv g s P -> CInv g s P'.
+Lemma CInv_zero : forall s, CInv (geo s) (zero s) [].
+Proof. intro s. cinv_empty. Qed.
+
+(* the invariant looks at P only through first_sight and the table state *)
+Lemma CInv_ext : forall g s P P',
+  (forall u a, first_sight g u a P' = first_sight g u a P) -> geo_after g P' = geo_after g P -> CInv g s P -> CInv g s P'.
 Proof.
-  intros g s P P' E [H1 H2 H3 H4 H5 H6 H7 H8 H9 H10 H11 H12].
+  intros g s P P' E EG [H1 H2 H3 H4 H5 H6 H7 H8 H9 H10 H11 H12].
   constructor; auto.
+  - rewrite EG. exact H1.
   - intros u a. rewrite E. apply H3.
-  - intro a. rewrite H7. split; intros [Hg [u [c H]]]; (split; [exact Hg|]); exists u, c; [rewrite E | rewrite <- E]; exact H.
-  - intro a. rewrite H8. split; intros [Hg [u [c H]]]; (split; [exact Hg|]); exists u, c; [rewrite E | rewrite <- E]; exact H.
-  - intro a. rewrite H9. split; intros [Hg [u [n [c [H Hn]]]]]; (split; [exact Hg|]); exists u, n, c; (split; [|exact Hn]);
+  - intro a. rewrite H7. split; intros [u [c H]]; exists u, c; [rewrite E | rewrite <- E]; exact H.
+  - intro a. rewrite H8. split; intros [u [c H]]; exists u, c; [rewrite E | rewrite <- E]; exact H.
+  - intro a. rewrite H9. split; intros [u [n [c [H Hn]]]]; exists u, n, c; (split; [|exact Hn]);
       [rewrite E | rewrite <- E]; exact H.
-  - intro c. rewrite H12. destruct g; [|reflexivity]. unfold ccsum. apply sumN_map_ext. intros u _. f_equal. f_equal.
-    apply filter_ext. intro a. unfold ccb. rewrite E. reflexivity.
+  - intro c. rewrite H12. unfold ccsumg. apply sumN_map_ext. intros u _. f_equal. f_equal.
+    apply filter_ext. intro a. unfold ccbg. rewrite E. reflexivity.
 Qed.
 
 Lemma set_add_spec : forall a l, NoDup l -> NoDup (set_add a l) /\ (forall x, In x (set_add a l) <-> In x l \/ x = a).
 Proof. intros a l ND. exact (set_ins_spec l a ND). Qed.
-
-Lemma CInv_zero : forall g s (P : list op), geo s = g -> CInv g (zero s) [].
-Proof. intros g s P Hg. cinv_empty g. Qed.
 
 (* transfer along equal country statistics *)
 Lemma CInv_cs : forall g s s' P, cs s' = cs s -> CInv g s P -> CInv g s' P.
@@ -174,156 +232,285 @@ Qed.
 Lemma CInv_update : forall g s P o ad c t n,
   accepted_poll o = Some (ad, c, t, n) -> CInv g s P -> CInv g (update_country ad t n c s) (P ++ [o]).
 Proof.
-  intros g s P o ad c t n Ho HI. set (u0 := norm_type t).
-  assert (FP : forall u a, first_poll u a (P ++ [o]) =
-                           match first_poll u a P with Some x => Some x
-                           | None => if (u0 =? u) && beq ad a then Some (n, c) else None end).
-  { intros u a. rewrite first_poll_snoc, poll_of_accepted, Ho. reflexivity. }
+  intros g s P o ad c t n Ho HI. set (u0 := norm_type t). set (gs := geo_after g P).
+  assert (GA : geo_after g (P ++ [o]) = gs).
+  { rewrite geo_after_snoc. apply geo_step_not_reload. apply (accepted_not_reload o _ Ho). }
+  assert (FP : forall u a, first_sight g u a (P ++ [o]) =
+                           match first_sight g u a P with Some x => Some x
+                           | None => if (u0 =? u) && beq ad a then Some (gs, n, c) else None end).
+  { intros u a. rewrite first_sight_snoc, poll_of_accepted, Ho. fold u0. fold gs.
+    destruct (first_sight g u a P); [reflexivity|]. destruct ((u0 =? u) && beq ad a); reflexivity. }
   unfold update_country. fold u0. destruct (mem ad (tsets s u0)) eqn:Em.
-  - (* already counted for this type in this period: nothing changes, and neither does any first poll *)
-    apply mem_In in Em. apply (ci_in g s P HI) in Em. apply (CInv_ext g s P); [|exact HI].
-    intros u a. rewrite FP. destruct (first_poll u a P) eqn:E1; [reflexivity|].
+  - (* already counted for this type in this period: nothing changes, and neither does any first sighting *)
+    apply mem_In in Em. apply (ci_in g s P HI) in Em. apply (CInv_ext g s P); [| exact GA | exact HI].
+    intros u a. rewrite FP. destruct (first_sight g u a P) eqn:E1; [reflexivity|].
     destruct ((u0 =? u) && beq ad a) eqn:E2; [|reflexivity]. exfalso.
     apply andb_true_iff in E2. destruct E2 as [E2 E3]. apply N.eqb_eq in E2. apply beq_eq in E3. subst. contradiction.
-  - assert (Hnew : first_poll u0 ad P = None).
-    { destruct (first_poll u0 ad P) eqn:E; [|reflexivity]. exfalso.
+  - assert (Hnew : first_sight g u0 ad P = None).
+    { destruct (first_sight g u0 ad P) eqn:E; [|reflexivity]. exfalso.
       assert (Hin : In ad (tsets s u0)) by (apply (ci_in g s P HI); congruence). apply mem_In in Hin. congruence. }
     assert (Hnotin : ~ In ad (tsets s u0)) by (intro H; apply mem_In in H; congruence).
-    destruct HI as [H1 H2 H3 H4 H5 H6 H7 H8 H9 H10 H11 H12].
+    destruct HI as [H1 H2 H3 H4 H5 H6 H7 H8 H9 H10 H11 H12]. fold gs in H1.
     (* the per-type sets *)
     assert (T2 : forall u, NoDup (updN (tsets s) u0 (tsets s u0 ++ [ad]) u)).
     { intro u. unfold updN. destruct (u =? u0) eqn:E; [|apply H2]. apply NoDup_snoc; [apply H2 | exact Hnotin]. }
-    assert (T3 : forall u a, In a (updN (tsets s) u0 (tsets s u0 ++ [ad]) u) <-> first_poll u a (P ++ [o]) <> None).
+    assert (T3 : forall u a, In a (updN (tsets s) u0 (tsets s u0 ++ [ad]) u) <-> first_sight g u a (P ++ [o]) <> None).
     { intros u a. rewrite FP. unfold updN. destruct (u =? u0) eqn:E.
       - apply N.eqb_eq in E. subst u. rewrite N.eqb_refl. cbn [andb]. rewrite in_app_iff, H3. cbn [In].
-        destruct (first_poll u0 a P) eqn:E1.
+        destruct (first_sight g u0 a P) eqn:E1.
         + split; [intros _; discriminate | intros _; left; discriminate].
         + destruct (beq ad a) eqn:E2.
           * apply beq_eq in E2. split; [intros _; discriminate | intros _; right; left; exact E2].
           * apply beq_neq in E2. split; [intros [H|[H|[]]]; [congruence | contradiction] | intro H; congruence].
       - rewrite H3. assert (E' : (u0 =? u) = false) by (rewrite N.eqb_sym; exact E). rewrite E'. cbn [andb].
-        destruct (first_poll u a P); split; intro H; auto; congruence. }
-    assert (Keep : forall u a x, first_poll u a P = Some x -> first_poll u a (P ++ [o]) = Some x).
+        destruct (first_sight g u a P); split; intro H; auto; congruence. }
+    assert (Keep : forall u a x, first_sight g u a P = Some x -> first_sight g u a (P ++ [o]) = Some x).
     { intros u a x H. rewrite FP, H. reflexivity. }
-    assert (New : first_poll u0 ad (P ++ [o]) = Some (n, c)).
+    assert (New : first_sight g u0 ad (P ++ [o]) = Some (gs, n, c)).
     { rewrite FP, Hnew, N.eqb_refl, beq_refl. reflexivity. }
-    assert (Inv : forall u a x, first_poll u a (P ++ [o]) = Some x -> first_poll u a P = Some x \/ (u = u0 /\ a = ad /\ x = (n, c))).
-    { intros u a x H. rewrite FP in H. destruct (first_poll u a P); [left; exact H|].
+    assert (Inv : forall u a x, first_sight g u a (P ++ [o]) = Some x ->
+                                first_sight g u a P = Some x \/ (u = u0 /\ a = ad /\ x = (gs, n, c))).
+    { intros u a x H. rewrite FP in H. destruct (first_sight g u a P); [left; exact H|].
       destruct ((u0 =? u) && beq ad a) eqn:E; [|discriminate]. apply andb_true_iff in E. destruct E as [E2 E3].
       apply N.eqb_eq in E2. apply beq_eq in E3. inversion H; subst. right. auto. }
-    rewrite H1. destruct g.
-    + (* a geoip database is loaded *)
+    (* the country sums: only class u0 changes, by one when the new first sighting is attributed to c' *)
+    assert (Same : forall c' u a, In a (tsets s u) -> ccbg c' g u (P ++ [o]) a = ccbg c' g u P a).
+    { intros c' u a Hin. apply H3 in Hin. unfold ccbg. destruct (first_sight g u a P) as [x|] eqn:E; [|congruence].
+      rewrite (Keep u a x E). reflexivity. }
+    assert (Sum : forall c', ccsumg c' g (P ++ [o]) (updN (tsets s) u0 (tsets s u0 ++ [ad])) =
+                             ccsumg c' g P (tsets s) + (if gs && beq c' c then 1 else 0)).
+    { intro c'. unfold ccsumg.
+      set (f := fun u => N.of_nat (List.length (filter (ccbg c' g u P) (tsets s u)))).
+      set (f' := fun u => N.of_nat (List.length (filter (ccbg c' g u (P ++ [o])) (updN (tsets s) u0 (tsets s u0 ++ [ad]) u)))).
+      assert (Hne : forall u, u <> u0 -> f' u = f u).
+      { intros u Hu. unfold f', f, updN. apply N.eqb_neq in Hu. rewrite Hu. f_equal. f_equal.
+        apply filter_ext_in. intros a Ha. apply Same. exact Ha. }
+      assert (Heq : f' u0 = f u0 + (if gs && beq c' c then 1 else 0)).
+      { unfold f', f, updN. rewrite N.eqb_refl, filter_app, app_length.
+        rewrite (filter_ext_in _ _ _ (fun a Ha => Same c' u0 a Ha)). cbn [filter]. unfold ccbg at 2. rewrite New.
+        destruct gs; cbn [andb]; [destruct (beq c' c)|]; cbn [List.length]; lia. }
+      apply (sumN_map_bump f f' u0 _ all_types all_types_NoDup (norm_type_le t) Hne Heq). }
+    destruct (geo s) eqn:Eg.
+    + (* a geoip table is loaded *)
+      assert (Egs : gs = true) by congruence.
       constructor; cbn [geo tsets nat_r nat_u nat_k ccounts]; auto.
+      * rewrite GA. congruence.
       * destruct (n =? 1); [apply (set_add_spec ad _ H4) | exact H4].
       * destruct (n =? 2); [apply (set_add_spec ad _ H5) | exact H5].
       * destruct ((n =? 1) || (n =? 2)); [exact H6 | apply (set_add_spec ad _ H6)].
       * intro a. split.
-        -- intro Hin. split; [reflexivity|].
+        -- intro Hin.
            assert (Hc : In a (nat_r s) \/ (n = 1 /\ a = ad)).
            { destruct (n =? 1) eqn:E; [|left; exact Hin]. apply (set_add_spec ad _ H4) in Hin. apply N.eqb_eq in E. tauto. }
            destruct Hc as [Hc|[-> ->]].
-           ++ apply H7 in Hc. destruct Hc as [_ [u [c' Hc]]]. exists u, c'. apply Keep. exact Hc.
-           ++ exists u0, c. exact New.
-        -- intros [_ [u [c' Hf]]]. apply Inv in Hf. destruct Hf as [Hf|[-> [-> Hx]]].
-           ++ assert (Hold : In a (nat_r s)) by (apply H7; split; [reflexivity | exists u, c'; exact Hf]).
+           ++ apply H7 in Hc. destruct Hc as [u [c' Hc]]. exists u, c'. apply Keep. exact Hc.
+           ++ exists u0, c. rewrite New, Egs. reflexivity.
+        -- intros [u [c' Hf]]. apply Inv in Hf. destruct Hf as [Hf|[-> [-> Hx]]].
+           ++ assert (Hold : In a (nat_r s)) by (apply H7; exists u, c'; exact Hf).
               destruct (n =? 1); [apply (set_add_spec ad _ H4); left; exact Hold | exact Hold].
            ++ inversion Hx; subst. cbn [N.eqb Pos.eqb]. apply (set_add_spec ad _ H4). right. reflexivity.
       * intro a. split.
-        -- intro Hin. split; [reflexivity|].
+        -- intro Hin.
            assert (Hc : In a (nat_u s) \/ (n = 2 /\ a = ad)).
            { destruct (n =? 2) eqn:E; [|left; exact Hin]. apply (set_add_spec ad _ H5) in Hin. apply N.eqb_eq in E. tauto. }
            destruct Hc as [Hc|[-> ->]].
-           ++ apply H8 in Hc. destruct Hc as [_ [u [c' Hc]]]. exists u, c'. apply Keep. exact Hc.
-           ++ exists u0, c. exact New.
-        -- intros [_ [u [c' Hf]]]. apply Inv in Hf. destruct Hf as [Hf|[-> [-> Hx]]].
-           ++ assert (Hold : In a (nat_u s)) by (apply H8; split; [reflexivity | exists u, c'; exact Hf]).
+           ++ apply H8 in Hc. destruct Hc as [u [c' Hc]]. exists u, c'. apply Keep. exact Hc.
+           ++ exists u0, c. rewrite New, Egs. reflexivity.
+        -- intros [u [c' Hf]]. apply Inv in Hf. destruct Hf as [Hf|[-> [-> Hx]]].
+           ++ assert (Hold : In a (nat_u s)) by (apply H8; exists u, c'; exact Hf).
               destruct (n =? 2); [apply (set_add_spec ad _ H5); left; exact Hold | exact Hold].
            ++ inversion Hx; subst. cbn [N.eqb Pos.eqb]. apply (set_add_spec ad _ H5). right. reflexivity.
       * intro a. split.
-        -- intro Hin. split; [reflexivity|].
+        -- intro Hin.
            assert (Hc : In a (nat_k s) \/ (n <> 1 /\ n <> 2 /\ a = ad)).
            { destruct ((n =? 1) || (n =? 2)) eqn:E; [left; exact Hin|]. apply (set_add_spec ad _ H6) in Hin.
              destruct Hin as [Hin| ->]; [left; exact Hin | right; split; [lia | split; [lia | reflexivity]]]. }
            destruct Hc as [Hc|[Hn1 [Hn2 ->]]].
-           ++ apply H9 in Hc. destruct Hc as [_ [u [n' [c' [Hc Hn]]]]]. exists u, n', c'. split; [apply Keep; exact Hc | exact Hn].
-           ++ exists u0, n, c. split; [exact New | split; assumption].
-        -- intros [_ [u [n' [c' [Hf [Hn1 Hn2]]]]]]. apply Inv in Hf. destruct Hf as [Hf|[-> [-> Hx]]].
-           ++ assert (Hold : In a (nat_k s)) by (apply H9; split; [reflexivity | exists u, n', c'; auto]).
+           ++ apply H9 in Hc. destruct Hc as [u [n' [c' [Hc Hn]]]]. exists u, n', c'. split; [apply Keep; exact Hc | exact Hn].
+           ++ exists u0, n, c. split; [rewrite New, Egs; reflexivity | split; assumption].
+        -- intros [u [n' [c' [Hf [Hn1 Hn2]]]]]. apply Inv in Hf. destruct Hf as [Hf|[-> [-> Hx]]].
+           ++ assert (Hold : In a (nat_k s)) by (apply H9; exists u, n', c'; auto).
               destruct ((n =? 1) || (n =? 2)); [exact Hold | apply (set_add_spec ad _ H6); left; exact Hold].
            ++ inversion Hx; subst. assert (E : (n =? 1) || (n =? 2) = false) by lia. rewrite E.
               apply (set_add_spec ad _ H6). right. reflexivity.
       * apply aupd_NoDup. exact H10.
       * apply aupd_positive. exact H11.
-      * intro c'. rewrite aget_aupd, H12. unfold ccsum.
-        set (f := fun u => N.of_nat (List.length (filter (ccb c' u P) (tsets s u)))).
-        set (f' := fun u => N.of_nat (List.length (filter (ccb c' u (P ++ [o])) (updN (tsets s) u0 (tsets s u0 ++ [ad]) u)))).
-        assert (Same : forall u a, In a (tsets s u) -> ccb c' u (P ++ [o]) a = ccb c' u P a).
-        { intros u a Hin. apply H3 in Hin. unfold ccb. destruct (first_poll u a P) as [x|] eqn:E; [|congruence].
-          rewrite (Keep u a x E). reflexivity. }
-        assert (Hne : forall u, u <> u0 -> f' u = f u).
-        { intros u Hu. unfold f', f, updN. apply N.eqb_neq in Hu. rewrite Hu. f_equal. f_equal.
-          apply filter_ext_in. intros a Ha. apply Same. exact Ha. }
-        assert (Heq : f' u0 = f u0 + (if beq c' c then 1 else 0)).
-        { unfold f', f, updN. rewrite N.eqb_refl, filter_app, app_length.
-          rewrite (filter_ext_in _ _ _ (fun a Ha => Same u0 a Ha)). cbn [filter]. unfold ccb at 2. rewrite New.
-          destruct (beq c' c); cbn [List.length]; lia. }
-        rewrite (sumN_map_bump f f' u0 (if beq c' c then 1 else 0) all_types all_types_NoDup (norm_type_le t) Hne Heq).
-        fold f. destruct (beq c' c); lia.
-    + (* no geoip database: only the per-type set grows *)
+      * intro c'. rewrite aget_aupd, H12, Sum, Egs. cbn [andb]. destruct (beq c' c); lia.
+    + (* no geoip table at this moment: only the per-type set grows; the address is never attributed in this period *)
+      assert (Egs : gs = false) by congruence.
       constructor; cbn [geo tsets nat_r nat_u nat_k ccounts]; auto.
-      * intro a. rewrite H7. split; intros [Hf _]; discriminate.
-      * intro a. rewrite H8. split; intros [Hf _]; discriminate.
-      * intro a. rewrite H9. split; intros [Hf _]; discriminate.
+      * rewrite GA. congruence.
+      * intro a. rewrite H7. split; intros [u [c' Hf]].
+        -- exists u, c'. apply Keep. exact Hf.
+        -- apply Inv in Hf. destruct Hf as [Hf|[_ [_ Hx]]]; [exists u, c'; exact Hf|]. rewrite Egs in Hx. discriminate.
+      * intro a. rewrite H8. split; intros [u [c' Hf]].
+        -- exists u, c'. apply Keep. exact Hf.
+        -- apply Inv in Hf. destruct Hf as [Hf|[_ [_ Hx]]]; [exists u, c'; exact Hf|]. rewrite Egs in Hx. discriminate.
+      * intro a. rewrite H9. split; intros [u [n' [c' [Hf Hn]]]].
+        -- exists u, n', c'. split; [apply Keep; exact Hf | exact Hn].
+        -- apply Inv in Hf. destruct Hf as [Hf|[_ [_ Hx]]]; [exists u, n', c'; auto|]. rewrite Egs in Hx. discriminate.
+      * intro c'. rewrite H12, Sum, Egs. cbn [andb]. lia.
 Qed.
 
-Lemma CInv_step : forall g s P o, CInv g s P -> CInv g (apply_op s o) (if is_zero o then [] else P ++ [o]).
+Lemma CInv_keep : forall g s P o, is_reload o = false -> (forall u a, poll_of u a o = None) -> CInv g s P -> CInv g s (P ++ [o]).
+Proof.
+  intros g s P o Hr Hp HI. apply (CInv_ext g s P); [| | exact HI].
+  - intros u a. rewrite first_sight_snoc, Hp. destruct (first_sight g u a P); reflexivity.
+  - rewrite geo_after_snoc. apply geo_step_not_reload. exact Hr.
+Qed.
+
+Lemma CInv_reload : forall g s P ok, CInv g s P -> CInv g (set_geo ok s) (P ++ [Reload ok]).
+Proof.
+  intros g s P ok [H1 H2 H3 H4 H5 H6 H7 H8 H9 H10 H11 H12].
+  assert (E : forall u a, first_sight g u a (P ++ [Reload ok]) = first_sight g u a P).
+  { intros u a. rewrite first_sight_snoc. cbn [poll_of]. destruct (first_sight g u a P); reflexivity. }
+  constructor; cbn [set_geo geo tsets nat_r nat_u nat_k ccounts]; auto.
+  - rewrite geo_after_snoc. reflexivity.
+  - intros u a. rewrite E. apply H3.
+  - intro a. rewrite H7. split; intros [u [c H]]; exists u, c; [rewrite E | rewrite <- E]; exact H.
+  - intro a. rewrite H8. split; intros [u [c H]]; exists u, c; [rewrite E | rewrite <- E]; exact H.
+  - intro a. rewrite H9. split; intros [u [n [c [H Hn]]]]; exists u, n, c; (split; [|exact Hn]);
+      [rewrite E | rewrite <- E]; exact H.
+  - intro c. rewrite H12. unfold ccsumg. apply sumN_map_ext. intros u _. f_equal. f_equal.
+    apply filter_ext. intro a. unfold ccbg. rewrite E. reflexivity.
+Qed.
+
+Lemma CInv_step : forall g s P o, CInv g s P ->
+  CInv (if is_zero o then geo s else g) (apply_op s o) (if is_zero o then [] else P ++ [o]).
 Proof.
   intros g s P o HI. pose proof (apply_op_cs s o) as Hcs.
-  destruct o as [|a t n relay out|n|n|n| |] eqn:Eo; cbn [is_zero].
+  destruct o as [|a t n relay out|n|n|n| | |ok] eqn:Eo; cbn [is_zero].
   1, 3, 4, 5, 6:
-    (cbn [accepted_poll] in Hcs; apply (CInv_cs g s _ _ Hcs); apply (CInv_ext g s P); [|exact HI];
-     intros u x; rewrite first_poll_snoc; destruct (first_poll u x P); reflexivity).
+    (cbn [accepted_poll] in Hcs; apply (CInv_cs g s _ _ Hcs); apply CInv_keep; [reflexivity | reflexivity | exact HI]).
   - destruct (accepted_poll (ProxyPoll a t n relay out)) as [[[[ad c] t'] n']|] eqn:Ea.
     + apply (CInv_cs g _ _ _ Hcs). apply CInv_update; [exact Ea | exact HI].
-    + apply (CInv_cs g s _ _ Hcs). apply (CInv_ext g s P); [|exact HI].
-      intros u x. rewrite first_poll_snoc, poll_of_accepted, Ea. destruct (first_poll u x P); reflexivity.
-  - apply (CInv_cs g (zero s) _ _ Hcs). apply (CInv_zero g s P). apply (ci_geo g s P HI).
+    + apply (CInv_cs g s _ _ Hcs). apply CInv_keep; [reflexivity | | exact HI].
+      intros u x. rewrite poll_of_accepted, Ea. reflexivity.
+  - apply (CInv_cs (geo s) (zero s) _ _ Hcs). apply CInv_zero.
+  - apply (CInv_cs g (set_geo ok s) _ _ Hcs). apply CInv_reload. exact HI.
 Qed.
 
-Lemma CInv_exec : forall g ops, CInv g (exec ops (minit g)) (since_zero ops).
+Lemma CInv_exec : forall g ops, CInv (period_geo g ops) (exec ops (minit g)) (since_zero ops).
 Proof.
   intros g ops. induction ops as [|o ops IH] using rev_ind.
   - apply CInv_init.
-  - rewrite exec_snoc, since_zero_snoc. apply CInv_step. exact IH.
+  - rewrite exec_snoc, since_zero_snoc, period_geo_snoc, <- geo_exec. apply CInv_step. exact IH.
 Qed.
 
-(* ---------- the published figures ---------- *)
+(* ---------- the published figures, for every history, geoip reloads included ---------- *)
 (* snowflake-ips-nat-restricted / -unrestricted / -unknown: the number of distinct addresses whose FIRST accepted
-   poll of the period, under some proxy type, reported that NAT type (0 without a geoip database: the code returns
-   before the NAT sets) *)
+   poll of the period, under some proxy type, reported that NAT type while a geoip table was loaded (the code
+   returns before the NAT sets when there is none) *)
 Lemma printed_nat : forall g ops,
-  let s := exec ops (minit g) in let r := print s in let P := since_zero ops in
+  let s := exec ops (minit g) in let r := print s in let P := since_zero ops in let g0 := period_geo g ops in
   (r_natr r = N.of_nat (List.length (nat_r s)) /\ NoDup (nat_r s) /\
-   forall a, In a (nat_r s) <-> g = true /\ exists u c, first_poll u a P = Some (1, c)) /\
+   forall a, In a (nat_r s) <-> exists u c, first_sight g0 u a P = Some (true, 1, c)) /\
   (r_natu r = N.of_nat (List.length (nat_u s)) /\ NoDup (nat_u s) /\
-   forall a, In a (nat_u s) <-> g = true /\ exists u c, first_poll u a P = Some (2, c)) /\
+   forall a, In a (nat_u s) <-> exists u c, first_sight g0 u a P = Some (true, 2, c)) /\
   (r_natk r = N.of_nat (List.length (nat_k s)) /\ NoDup (nat_k s) /\
-   forall a, In a (nat_k s) <-> g = true /\ exists u n c, first_poll u a P = Some (n, c) /\ n <> 1 /\ n <> 2).
+   forall a, In a (nat_k s) <-> exists u n c, first_sight g0 u a P = Some (true, n, c) /\ n <> 1 /\ n <> 2).
 Proof.
-  intros g ops s r P. destruct (CInv_exec g ops) as [H1 H2 H3 H4 H5 H6 H7 H8 H9 H10 H11 H12].
+  intros g ops s r P g0. destruct (CInv_exec g ops) as [H1 H2 H3 H4 H5 H6 H7 H8 H9 H10 H11 H12].
   subst r. cbn [print r_natr r_natu r_natk]. unfold len.
   split; [|split]; (split; [reflexivity | split; assumption]).
 Qed.
 
 (* snowflake-ips CC=NUM: each country once, never with 0, and NUM = over the five type classes, the number of
-   distinct addresses of the class whose first accepted poll of the period resolved to CC *)
+   distinct addresses of the class whose first accepted poll of the period happened with a table loaded and
+   resolved to CC *)
 Lemma printed_countries : forall g ops,
-  let s := exec ops (minit g) in let r := print s in let P := since_zero ops in
+  let s := exec ops (minit g) in let r := print s in let P := since_zero ops in let g0 := period_geo g ops in
   NoDup (map fst (r_cc r)) /\ (forall kv, In kv (r_cc r) -> 0 < snd kv) /\
   (forall u, NoDup (tsets s u) /\ forall a, In a (tsets s u) <-> In a (flat_map (polled u) P)) /\
-  forall c, aget 0 c (r_cc r) = if g then ccsum c P (tsets s) else 0.
+  forall c, aget 0 c (r_cc r) = ccsumg c g0 P (tsets s).
 Proof.
-  intros g ops s r P. destruct (CInv_exec g ops) as [H1 H2 H3 H4 H5 H6 H7 H8 H9 H10 H11 H12].
+  intros g ops s r P g0. destruct (CInv_exec g ops) as [H1 H2 H3 H4 H5 H6 H7 H8 H9 H10 H11 H12].
   subst r. cbn [print r_cc]. split; [exact H10|]. split; [exact H11|]. split; [|exact H12].
   intro u. apply unique_sets.
+Qed.
+
+(* ---------- a reload changes no figure ---------- *)
+Lemma reload_changes_no_figure : forall s ok,
+  print (apply_op s (Reload ok)) = print s /\ prom (apply_op s (Reload ok)) = prom s /\
+  ptotal (apply_op s (Reload ok)) = ptotal s /\ tsets (apply_op s (Reload ok)) = tsets s /\
+  geo (apply_op s (Reload ok)) = ok.
+Proof. intros s ok. repeat split; reflexivity. Qed.
+
+(* ---------- histories without a reload: the table state is the initial one throughout ---------- *)
+Definition no_reload (ops : list op) : bool := forallb (fun o => negb (is_reload o)) ops.
+
+Lemma first_sight_const : forall P g u a, no_reload P = true ->
+  first_sight g u a P = match first_poll u a P with Some (n, c) => Some (g, n, c) | None => None end.
+Proof.
+  induction P as [|o P IH]; intros g u a H; cbn [first_sight first_poll]; [reflexivity|].
+  cbn [no_reload forallb] in H. apply andb_true_iff in H. destruct H as [Ho HP].
+  destruct (poll_of u a o) as [[n c]|]; [reflexivity|].
+  rewrite geo_step_not_reload by (destruct (is_reload o); [discriminate | reflexivity]). apply IH. exact HP.
+Qed.
+
+Lemma no_reload_app : forall a b, no_reload (a ++ b) = no_reload a && no_reload b.
+Proof. intros. unfold no_reload. apply forallb_app. Qed.
+
+Lemma no_reload_since_zero : forall ops, no_reload ops = true -> no_reload (since_zero ops) = true.
+Proof.
+  induction ops as [|o ops IH] using rev_ind; intro H; [reflexivity|].
+  rewrite no_reload_app in H. apply andb_true_iff in H. destruct H as [H1 H2].
+  rewrite since_zero_snoc. destruct (is_zero o); [reflexivity|]. rewrite no_reload_app, (IH H1). exact H2.
+Qed.
+
+Lemma no_reload_geo : forall ops g, no_reload ops = true -> geo_after g ops = g /\ period_geo g ops = g.
+Proof.
+  induction ops as [|o ops IH] using rev_ind; intros g H; [split; reflexivity|].
+  rewrite no_reload_app in H. apply andb_true_iff in H. destruct H as [H1 H2]. destruct (IH g H1) as [E1 E2].
+  cbn [no_reload forallb] in H2. rewrite andb_true_r in H2.
+  rewrite geo_after_snoc, period_geo_snoc, E1, E2. split.
+  - apply geo_step_not_reload. destruct (is_reload o); [discriminate | reflexivity].
+  - destruct (is_zero o); reflexivity.
+Qed.
+
+Lemma ccsumg_const : forall c g P sets, no_reload P = true -> ccsumg c g P sets = if g then ccsum c P sets else 0.
+Proof.
+  intros c g P sets H. unfold ccsumg, ccsum.
+  assert (E : forall u a, ccbg c g u P a = g && ccb c u P a).
+  { intros u a. unfold ccbg, ccb. rewrite (first_sight_const P g u a H). destruct (first_poll u a P) as [[n c']|]; destruct g; reflexivity. }
+  destruct g.
+  - apply sumN_map_ext. intros u _. f_equal. f_equal. apply filter_ext. intro a. rewrite E. reflexivity.
+  - transitivity (sumN (map (fun _ : N => 0) all_types)); [|reflexivity].
+    apply sumN_map_ext. intros u _. rewrite (filter_ext _ (fun _ => false)) by (intro a; rewrite E; reflexivity).
+    clear. induction (sets u) as [|x l IH]; [reflexivity | exact IH].
+Qed.
+
+(* the two figures as they read when no reload happens in the history: the table state is the constant g *)
+Lemma printed_countries_no_reload : forall g ops, no_reload ops = true ->
+  let s := exec ops (minit g) in let r := print s in let P := since_zero ops in
+  forall c, aget 0 c (r_cc r) = if g then ccsum c P (tsets s) else 0.
+Proof.
+  intros g ops H s r P c. destruct (printed_countries g ops) as [_ [_ [_ Hc]]]. fold s in Hc. fold r in Hc. rewrite Hc.
+  destruct (no_reload_geo ops g H) as [_ ->]. apply ccsumg_const. apply no_reload_since_zero. exact H.
+Qed.
+
+Lemma printed_nat_no_reload : forall g ops, no_reload ops = true ->
+  let s := exec ops (minit g) in let P := since_zero ops in
+  (forall a, In a (nat_r s) <-> g = true /\ exists u c, first_poll u a P = Some (1, c)) /\
+  (forall a, In a (nat_u s) <-> g = true /\ exists u c, first_poll u a P = Some (2, c)) /\
+  (forall a, In a (nat_k s) <-> g = true /\ exists u n c, first_poll u a P = Some (n, c) /\ n <> 1 /\ n <> 2).
+Proof.
+  intros g ops H s P. destruct (printed_nat g ops) as [[_ [_ Hr]] [[_ [_ Hu]] [_ [_ Hk]]]]. fold s in Hr, Hu, Hk.
+  destruct (no_reload_geo ops g H) as [_ EP]. rewrite EP in Hr, Hu, Hk.
+  pose proof (no_reload_since_zero ops H) as HP. fold P in HP, Hr, Hu, Hk.
+  assert (FS : forall u a, first_sight g u a P = match first_poll u a P with Some (n, c) => Some (g, n, c) | None => None end).
+  { intros u a. apply first_sight_const. exact HP. }
+  split; [|split]; intro a.
+  - rewrite Hr. split.
+    + intros [u [c E]]. rewrite FS in E. destruct (first_poll u a P) as [[n' c']|] eqn:E1; [|discriminate].
+      inversion E; subst. split; [reflexivity | exists u, c; exact E1].
+    + intros [-> [u [c E]]]. exists u, c. rewrite FS, E. reflexivity.
+  - rewrite Hu. split.
+    + intros [u [c E]]. rewrite FS in E. destruct (first_poll u a P) as [[n' c']|] eqn:E1; [|discriminate].
+      inversion E; subst. split; [reflexivity | exists u, c; exact E1].
+    + intros [-> [u [c E]]]. exists u, c. rewrite FS, E. reflexivity.
+  - rewrite Hk. split.
+    + intros [u [n [c [E Hn]]]]. rewrite FS in E. destruct (first_poll u a P) as [[n' c']|] eqn:E1; [|discriminate].
+      inversion E; subst. split; [reflexivity | exists u, n, c; split; [exact E1 | exact Hn]].
+    + intros [-> [u [n [c [E Hn]]]]]. exists u, n, c. rewrite FS, E. split; [reflexivity | exact Hn].
 Qed.
